@@ -140,8 +140,8 @@ Lemma dec_var_vec f e tag req x prior bs : dec_var (S f) e tag req (TVec x) prio
         match read_count r with
         | CErr _ => DErr
         | COk n r1 =>
-            if (n <? 0)%Z then DPanic site_makeslice
-            else if (Z.of_nat (length r1) <? n)%Z then DHuge
+            if (n <? 0)%Z then DErr
+            else if (Z.of_nat (length r1) <? n)%Z then DErr
             else match dec_elems f e x n r1 with
                  | DOk xs r2 => DOk (list_val x xs) r2
                  | DErr => DErr | DPanic s => DPanic s | DHuge => DHuge | DFuel => DFuel
@@ -155,8 +155,7 @@ Lemma dec_var_vec f e tag req x prior bs : dec_var (S f) e tag req (TVec x) prio
               | CErr _ => DErr
               | COk n r2 => match read_slice n r2 with
                             | None => DErr
-                            | Some (None, r3) => DOk prior r3
-                            | Some (Some s, r3) => DOk (bytes_val x s) r3
+                            | Some (s, r3) => DOk (bytes_val x s) r3
                             end
               end
           | SeekFuel => DFuel
@@ -175,6 +174,7 @@ Lemma dec_var_arr f e tag req len x prior bs : dec_var (S f) e tag req (TArr len
         match read_count r with
         | CErr _ => DErr
         | COk n r1 =>
+            if (n <? 0)%Z || (Z.of_nat len <? n)%Z then DErr else
             match dec_arr f e x len 0 n (match prior with VList l => l | _ => [] end) r1 with
             | DOk xs r2 => DOk (VList xs) r2
             | DErr => DErr | DPanic s => DPanic s | DHuge => DHuge | DFuel => DFuel
@@ -190,7 +190,8 @@ Lemma dec_var_map f e tag req kt vt prior bs : dec_var (S f) e tag req (TMap kt 
   | Found _ r =>
       match read_count r with
       | CErr _ => DErr
-      | COk n r1 => match dec_entries f e kt vt n r1 with
+      | COk n r1 => if (n <? 0)%Z || (Z.of_nat (length r1) / 2 <? n)%Z then DErr else
+                    match dec_entries f e kt vt n r1 with
                     | DOk kvs r2 => DOk (VMap kvs) r2
                     | DErr => DErr | DPanic s => DPanic s | DHuge => DHuge | DFuel => DFuel
                     end
@@ -284,12 +285,10 @@ Proof.
   intros Hn. replace (Z.of_nat n) with (Z.of_N (N.of_nat n)) by lia.
   rewrite w_int32_len by assumption. apply read_count_w_len. cbn. lia.
 Qed.
-Lemma read_slice_app s rest : s <> [] ->
-  read_slice (Z.of_nat (length s)) (s ++ rest) = Some (Some s, rest).
+Lemma read_slice_app s rest : read_slice (Z.of_nat (length s)) (s ++ rest) = Some (s, rest).
 Proof.
-  intros Hs. unfold read_slice. destruct s as [|a s]; [congruence|].
-  destruct (Z.of_nat (length (a :: s)) <=? 0)%Z eqn:E; [cbn [length] in E; lia|].
-  rewrite app_length. destruct (Z.of_nat (length (a :: s) + length rest) <? Z.of_nat (length (a :: s)))%Z eqn:E2; [lia|].
+  unfold read_slice. destruct (Z.of_nat (length s) <? 0)%Z eqn:E; [lia|].
+  rewrite app_length. destruct (Z.of_nat (length s + length rest) <? Z.of_nat (length s))%Z eqn:E2; [lia|].
   rewrite Nat2Z.id, firstn_app, skipn_app, Nat.sub_diag, firstn_all, skipn_all. cbn [firstn skipn app].
   now rewrite app_nil_r.
 Qed.
@@ -359,6 +358,13 @@ Proof.
   pose proof (enc_var_req_length e 0 x None y Hy). lia.
 Qed.
 
+Lemma enc_entries_length e kt vt kvs : Forall (fun p => has_type e kt (fst p) /\ has_type e vt (snd p)) kvs ->
+  (2 * length kvs <= length (enc_entries e kt vt kvs))%nat.
+Proof.
+  induction 1 as [|[ky y] r [Hk Hy] _ IH]; [cbn; lia|]. cbn [fst snd] in *. cbn [enc_entries length]. rewrite !app_length.
+  pose proof (enc_var_req_length e 0 kt None ky Hk). pose proof (enc_var_req_length e 1 vt None y Hy). lia.
+Qed.
+
 (* ---------- prior targets ---------- *)
 Lemma zero_zlike e : forall n t f, nest_ok n e t = true -> (n <= f)%nat -> zlike e t (zero_of f e t).
 Proof.
@@ -373,47 +379,47 @@ Proof.
     intros _. apply IH; [assumption|lia].
 Qed.
 
-Lemma reset_default_go f e sid vs :
-  reset_default (S f) e sid (VStruct vs) = VStruct (reset_go f e (fields_of e sid) vs).
+(* the repaired ResetDefault: with fuel for the by-value nesting of the struct type, every member holds its
+   declared default or is zero-like - whatever the target held *)
+Lemma reset_val_zlike e : forall n s f, nest_ok n e (TStruct s) = true -> (n <= f)%nat -> zlike e (TStruct s) (reset_val f e s).
 Proof.
-  cbn [reset_default]. f_equal. generalize (fields_of e sid). intros fds. revert vs.
-  induction fds as [|fd fds IH]; intros [|x vs]; cbn [reset_go]; try reflexivity. f_equal. apply IH.
+  induction n as [|n IH]; intros s f Hn Hf; [discriminate|]. destruct f as [|f]; [lia|].
+  cbn [nest_ok] in Hn. cbn [reset_val]. apply ZL_struct. revert Hn. generalize (fields_of e s). intros fds.
+  induction fds as [|fd fds IHf]; cbn [forallb map]; intros Hn; [constructor|].
+  apply andb_true_iff in Hn. destruct Hn as [Hn1 Hn2]. constructor; [|now apply IHf].
+  intros Hd. rewrite Hd. destruct (fty fd) eqn:Et; try (apply (zero_zlike e n); [assumption|lia]).
+  apply IH; [assumption|lia].
 Qed.
-
-Definition zmember e (fd : field) (p : val) : Prop := fdef fd = None -> zlike e (fty fd) p.
-Lemma reset_zlike e : forall f s x, zlike e (TStruct s) x -> zlike e (TStruct s) (reset_default f e s x).
+Lemma reset_zlike e n : forall f s x, nest_ok n e (TStruct s) = true -> (n <= f)%nat -> zlike e (TStruct s) (reset_default f e s x).
+Proof. intros f s x Hn Hf. unfold reset_default. now apply (reset_val_zlike e n). Qed.
+Lemma reset_val_priors e k f sid : wf_schema k e -> (k <= f)%nat ->
+  Forall2 (fun fd p => prior_ok e (fty fd) (fdef fd) p) (fields_of e sid)
+    (map (fun fd => match fdef fd with
+                    | Some d => d
+                    | None => match fty fd with TStruct s => reset_val f e s | t => zero_of f e t end
+                    end) (fields_of e sid)).
 Proof.
-  induction f as [|f IH]; intros s x H; [exact H|].
-  inversion H as [? Hb| |? vs HF]; subst; [discriminate|]. rewrite reset_default_go. apply ZL_struct.
-  clear H. induction HF as [|fd p fds ps Hm _ IHF]; cbn [reset_go]; [constructor|]. constructor; [|exact IHF].
-  intros Hd. rewrite Hd. specialize (Hm Hd). destruct (fty fd) eqn:Et; try exact Hm. apply IH. exact Hm.
-Qed.
-Lemma reset_priors e f fds ps : Forall2 (zmember e) fds ps ->
-  Forall2 (fun fd p => prior_ok e (fty fd) (fdef fd) p) fds (reset_go f e fds ps).
-Proof.
-  induction 1 as [|fd p fds ps Hm _ IHF]; cbn [reset_go]; [constructor|]. constructor; [|exact IHF].
+  intros Hwf Hk. pose proof (wf_nest k e Hwf sid) as Hn. revert Hn. generalize (fields_of e sid). intros fds.
+  induction fds as [|fd fds IH]; intros Hn; cbn [map]; [constructor|].
+  constructor; [|apply IH; intros fd' Hin; apply Hn; now right].
   unfold prior_ok. destruct (fdef fd) eqn:Ed; [reflexivity|].
-  specialize (Hm Ed). destruct (fty fd) eqn:Et; try exact Hm. apply reset_zlike. exact Hm.
+  assert (Hnest : nest_ok k e (fty fd) = true).
+  { specialize (Hn fd (or_introl eq_refl)). destruct (fty fd); cbn [ty_nest] in Hn; apply andb_true_iff in Hn; tauto. }
+  destruct (fty fd) eqn:Et; try (apply (zero_zlike e k); [assumption|lia]).
+  apply (reset_val_zlike e k); [assumption|lia].
 Qed.
-Lemma priors_zmember e fds ps : Forall2 (fun fd p => prior_ok e (fty fd) (fdef fd) p) fds ps -> Forall2 (zmember e) fds ps.
-Proof.
-  induction 1 as [|fd p fds ps Hm _ IHF]; constructor; [|exact IHF]. intros Hd. unfold prior_ok in Hm. now rewrite Hd in Hm.
-Qed.
-(* the member priors the generated ReadFrom/ReadBlock uses, from any admissible target *)
-Lemma struct_priors e f sid prior : zlike e (TStruct sid) prior ->
+(* the member priors the generated ReadFrom/ReadBlock uses, from ANY target *)
+Lemma struct_priors e k f sid prior : wf_schema k e -> (k <= f)%nat ->
   exists ps, reset_default (S f) e sid (reset_default (S f) e sid prior) = VStruct ps /\
              Forall2 (fun fd p => prior_ok e (fty fd) (fdef fd) p) (fields_of e sid) ps.
 Proof.
-  intros H. inversion H as [? Hb| |? vs HF]; subst; [discriminate|].
-  rewrite reset_default_go. pose proof (reset_priors e f _ _ HF) as H1. apply priors_zmember in H1.
-  rewrite reset_default_go. eexists. split; [reflexivity|]. now apply reset_priors.
+  intros Hwf Hk. unfold reset_default. cbn [reset_val]. eexists. split; [reflexivity|]. now apply (reset_val_priors e k).
 Qed.
-Lemma struct_priors1 e f sid prior : zlike e (TStruct sid) prior ->
+Lemma struct_priors1 e k f sid prior : wf_schema k e -> (k <= f)%nat ->
   exists ps, reset_default (S f) e sid prior = VStruct ps /\
              Forall2 (fun fd p => prior_ok e (fty fd) (fdef fd) p) (fields_of e sid) ps.
 Proof.
-  intros H. inversion H as [? Hb| |? vs HF]; subst; [discriminate|].
-  rewrite reset_default_go. eexists. split; [reflexivity|]. now apply reset_priors.
+  intros Hwf Hk. unfold reset_default. cbn [reset_val]. eexists. split; [reflexivity|]. now apply (reset_val_priors e k).
 Qed.
 
 (* ---------- scalar members behind unknown fields ---------- *)
@@ -680,9 +686,7 @@ Proof.
     unfold skip_to. destruct f as [|f0]; [lia|]. rewrite seek_first by sf.
     change (tBYTE =? tBYTE) with true. cbv iota.
     rewrite read_count_len by assumption.
-    destruct s as [|a s'].
-    + reflexivity.
-    + rewrite read_slice_app by discriminate. reflexivity.
+    rewrite read_slice_app. reflexivity.
 Qed.
 
 Lemma step_var_vec f tag req d x xs prior lo J rest : P_elems f ->
@@ -728,6 +732,7 @@ Proof.
   - rewrite <- !app_assoc in *. rewrite seek_first by sf.
     change (tLIST =? tLIST) with true. cbv iota.
     rewrite read_count_len by (rewrite <- Hll in Hlen; lia).
+    replace ((Z.of_nat (length xs) <? 0)%Z || (Z.of_nat (length xs) <? Z.of_nat (length xs))%Z) with false by lia.
     pose proof (HA x (length xs) [] l xs rest) as H1. cbn [length app] in H1. rewrite H1; try assumption; try reflexivity.
     unfold fuel_ok. rewrite !app_length in *. lia.
 Qed.
@@ -751,6 +756,9 @@ Proof.
   - rewrite <- !app_assoc in *. rewrite seek_first by sf.
     change (tMAP =? tMAP) with true. cbv iota.
     rewrite read_count_len by assumption.
+    pose proof (enc_entries_length e kt vt kvs Hty) as Hel.
+    replace ((Z.of_nat (length kvs) <? 0)%Z || (Z.of_nat (length (enc_entries e kt vt kvs ++ rest)) / 2 <? Z.of_nat (length kvs))%Z)
+      with false by (rewrite app_length; lia).
     rewrite HE; try assumption; [reflexivity|].
     unfold fuel_ok. rewrite !app_length in *. lia.
 Qed.
@@ -785,7 +793,7 @@ Proof.
   rewrite enc_var_struct in *. rewrite <- !app_assoc in *. rewrite seek_first by sf.
   change (tSB =? tSB) with true. cbv iota.
   pose proof (need_list_ge vs).
-  destruct f as [|f0]; [lia|]. destruct (struct_priors e f0 sid prior Hp) as (ps & -> & Hps).
+  destruct f as [|f0]; [lia|]. destruct (struct_priors e k f0 sid prior Hwf ltac:(lia)) as (ps & -> & Hps).
   rewrite <- (encx_nil vs (fields_of e sid)) by (now apply Forall2_len in Hty).
   rewrite (HF (fields_of e sid) vs ps (map (fun _ => []) (fields_of e sid)) None (head tSE 0 ++ rest)); try assumption.
   - destruct f0 as [|f1]; [lia|]. now rewrite skip_to_end_se.
@@ -834,19 +842,19 @@ Proof.
   cbn [nest_ok]. apply forallb_forall. intros fd Hin. apply (ty_nest_nest e k). now apply (wf_nest k e Hwf sid).
 Qed.
 
-(* ReadFrom of the encoding with unknown fields before any member and after the last one, into any admissible
+(* ReadFrom of the encoding with unknown fields before any member and after the last one, into any
    target, followed by anything that cannot be mistaken for a member *)
 Theorem decode_into_extras e k sid vs prior Js tail :
-  wf_schema k e -> has_type e (TStruct sid) (VStruct vs) -> zlike e (TStruct sid) prior ->
+  wf_schema k e -> has_type e (TStruct sid) (VStruct vs) ->
   junks_ok None (fields_of e sid) Js ->
   (forall fd, In fd (fields_of e sid) -> follows (ftag fd) tail) ->
   (need_list vs + k + 3 <= 2 * length (encx_fields e vs (fields_of e sid) Js ++ tail) + 64)%nat ->
   decode_into e sid prior (encx_fields e vs (fields_of e sid) Js ++ tail) = DOk (norm_struct e sid (VStruct vs)) tail.
 Proof.
-  intros Hwf Hty Hp HJ Htail Hfuel. unfold decode_into, norm_struct. rewrite norm_str.
+  intros Hwf Hty HJ Htail Hfuel. unfold decode_into, norm_struct. rewrite norm_str.
   set (bs := encx_fields e vs (fields_of e sid) Js ++ tail) in *.
   replace (4 * length bs + 64)%nat with (S (4 * length bs + 63)) by lia.
-  destruct (struct_priors1 e (4 * length bs + 63) sid prior Hp) as (ps & -> & Hps).
+  destruct (struct_priors1 e k (4 * length bs + 63) sid prior Hwf ltac:(lia)) as (ps & -> & Hps).
   destruct (rt_all e k Hwf (S (4 * length bs + 63))) as (_ & _ & _ & _ & HF).
   inversion Hty as [| | | | |? ? Hvs]; subst; [discriminate|].
   assert (H1 : dec_fields (S (4 * length bs + 63)) e (fields_of e sid) ps bs = DOk (norm_fields e vs (fields_of e sid)) tail).
@@ -858,12 +866,12 @@ Proof.
 Qed.
 
 Theorem roundtrip_into e k sid vs prior rest :
-  wf_schema k e -> has_type e (TStruct sid) (VStruct vs) -> zlike e (TStruct sid) prior ->
+  wf_schema k e -> has_type e (TStruct sid) (VStruct vs) ->
   (forall fd, In fd (fields_of e sid) -> follows (ftag fd) rest) ->
   (need_list vs + k + 3 <= 2 * length (encode e sid (VStruct vs) ++ rest) + 64)%nat ->
   decode_into e sid prior (encode e sid (VStruct vs) ++ rest) = DOk (norm_struct e sid (VStruct vs)) rest.
 Proof.
-  intros Hwf Hty Hp Htail Hfuel.
+  intros Hwf Hty Htail Hfuel.
   assert (Hl : length (fields_of e sid) = length vs).
   { inversion Hty as [| | | | |? ? Hvs]; subst; [discriminate|]. now apply Forall2_len in Hvs. }
   rewrite encode_fields in *. rewrite <- (encx_nil e vs (fields_of e sid) Hl) in *.
@@ -881,7 +889,6 @@ Theorem roundtrip_struct e k sid vs :
 Proof.
   intros Hwf Hk Hty Hfuel. unfold decode.
   rewrite <- (app_nil_r (encode e sid (VStruct vs))). apply (roundtrip_into e k); try assumption.
-  - now apply (zero_struct_zlike e k).
   - intros; apply follows_nil.
   - now rewrite app_nil_r.
 Qed.
@@ -1081,7 +1088,6 @@ Theorem extras_ignored e k n sid vs Js Jl :
 Proof.
   intros Hwf Hk Hfin Hn Hty HJ HJl. split; [|now apply (roundtrip_struct_static e k n)].
   unfold decode. apply (decode_into_extras e k); try assumption.
-  - now apply (zero_struct_zlike e k).
   - intros fd Hin. now apply (follows_trailing (fields_of e sid)).
   - pose proof (need_top e n sid vs Hfin Hty) as H1. rewrite encode_fields in H1.
     inversion Hty as [| | | | |? ? Hvs]; subst; [discriminate|].
@@ -1218,7 +1224,7 @@ Proof.
   intros Hwf Hk Hsid H1 Hfail Hfo Hfin Hn. unfold decode, decode_into.
   set (bs := enc_fields e vs1 fds1 ++ tail).
   replace (4 * length bs + 64)%nat with (S (4 * length bs + 63)) by lia.
-  destruct (struct_priors1 e (4 * length bs + 63) sid (zero_struct e sid) (zero_struct_zlike e k sid Hwf Hk)) as (ps & -> & Hps).
+  destruct (struct_priors1 e k (4 * length bs + 63) sid (zero_struct e sid) Hwf ltac:(lia)) as (ps & -> & Hps).
   pose proof (members_ok e k Hwf sid) as Hmem. pose proof (wf_asc k e Hwf sid) as Hasc.
   destruct n as [|n']; [discriminate|]. cbn [tfin tneed] in Hfin, Hn. rewrite forallb_forall in Hfin.
   rewrite Hsid in *.
@@ -1247,7 +1253,7 @@ Proof.
   intros Hwf Hk Hsid Hreq H1 H2 Hfin Hn. unfold decode, decode_into.
   set (bs := enc_fields e vs1 fds1 ++ enc_fields e vs2 fds2).
   replace (4 * length bs + 64)%nat with (S (4 * length bs + 63)) by lia.
-  destruct (struct_priors1 e (4 * length bs + 63) sid (zero_struct e sid) (zero_struct_zlike e k sid Hwf Hk)) as (ps & -> & Hps).
+  destruct (struct_priors1 e k (4 * length bs + 63) sid (zero_struct e sid) Hwf ltac:(lia)) as (ps & -> & Hps).
   pose proof (members_ok e k Hwf sid) as Hmem. pose proof (wf_asc k e Hwf sid) as Hasc.
   destruct n as [|n']; [discriminate|]. cbn [tfin tneed] in Hfin, Hn. rewrite forallb_forall in Hfin.
   rewrite Hsid in *.
